@@ -157,7 +157,7 @@ PROPS = {
     },
     "C14": {
         "statement": "for every log accepted by the driver's panic-aware acceptor (PR.run): C14_panic_reported_iff, C14_dependents_dont_run, C14_at_most_once, C14_nothing_left_open; plus the declarative PTraces semantics (C14_panicked_iff, C14_payload_source)",
-        "engines": [trace("flat,base,batch,tl", quick=50, panics=True)],
+        "engines": [trace("flat,base,batch,tl,flat", quick=60, panics=True), trace("tlbatch", quick=30, thorough=1000, panics=True)],
         "aspects": TRACE,
         "assumptions": [RAYON, "rayon re-raises a job's panic in the caller of install after the stage's started jobs finished; unwinding drops guards; RwLock read locks do not poison"],
     },
@@ -277,6 +277,77 @@ PROPS["C09"] = {
     "aspects": ["outcome", "state", "ghost"],
     "assumptions": [TYPES, "the unchecked downcasts (Fetch::deref, get_mut, remove) are modelled as 'type tag equals key type => the cast is right'"],
 }
+
+# ---- the same engines on a build without debug assertions and overflow checks (harness profile `nodebug`:
+# the dev profile with both switched off, for the crate under test as well): whatever sits inside
+# debug_assert!(..) is not evaluated and arithmetic wraps, as in a release build. C16 is left out: the
+# check of Par::with it is about exists only with debug assertions on.
+import copy as _copy
+
+
+def nodebug(spec, **quick):
+    d = _copy.deepcopy(spec)
+    d["profile"] = "nodebug"
+    d["nopar"] = False
+    d.pop("tiers", None)
+    d.setdefault("quick", {}).update(quick)
+    d.get("thorough", {}).pop("small-scope", None)
+    return d
+
+
+_SD = {"engine": "sysdata", "args": {}, "quick": {"exhaust-upto": 4, "samples": 6, "pre-samples": 3}, "thorough": {"exhaust-upto": 6, "samples": 30, "pre-samples": 10}}
+# ---- scale: stages hundreds of groups wide, hundreds of effective barriers / stages, groups whose
+# accumulated lists hold dozens of ids (index / counter / inline-buffer widths)
+def scale(profiles, quick=24, thorough=1500, **kw):
+    d = plan(profiles, quick=quick, thorough=thorough, **kw)
+    d["thorough"].pop("small-scope", None)
+    return d
+
+
+def abyss(n=66000):
+    """thorough tier only, release profile: one plan of n stages - beyond what the model can be run alongside
+    (its executable lists make 8000 stages take minutes) - under the implementation-side oracles alone"""
+    return {"engine": "plan", "args": {"profiles": "plan", "abyss": n}, "thorough": {"cases": 0}, "search": {"cases": 0},
+            "profile": "release", "tiers": ["thorough"], "nopar": False}
+
+
+_SCALE = {
+    "C01": [scale("vwide,fat,fat,fat", quick=48)],
+    "C02": [scale("vwide,deep", quick=16), plan("phname", quick=300, thorough=6000), abyss()],
+    "C03": [scale("deep", quick=14), abyss()],
+    "C05": [scale("fat,vwide", quick=16)],
+    "C07": [scale("fat", quick=16)],
+    "C10": [scale("vwide,deep,fat", quick=30), abyss()],
+    "C18": [scale("vwide,deep,fat", quick=24), plan("phname", quick=200, thorough=4000)],
+    "C19": [scale("vwide,fat", quick=16), plan("phname", quick=200, thorough=4000)],
+    "C20": [scale("vwide,deep", quick=10), plan("phname", quick=200, thorough=4000)],
+}
+for _k, _v in _SCALE.items():
+    PROPS[_k]["engines"] = PROPS[_k]["engines"] + _v
+
+_NODEBUG = {
+    "C01": [nodebug(plan("plan,funnel,batch", quick=150, thorough=3000)), nodebug(trace("flat,batch,funnel", quick=20, thorough=300))],
+    "C02": [nodebug(plan("deps,plan,barriers", quick=150, thorough=3000)), nodebug(trace("deps,base", quick=12, thorough=200, **{"long-holds": True}))],
+    "C03": [nodebug(plan("barriers,deps,batch", quick=150, thorough=3000)), nodebug(trace("barriers,batch", quick=12, thorough=200))],
+    "C04": [nodebug(trace("funnel,batch,tl,base", quick=25, thorough=400, **{"partial-modes": True})), nodebug({"engine": "asyncd", "args": {}, "quick": {"cases": 60}, "thorough": {"cases": 1000}})],
+    "C05": [nodebug(trace("flat,base,batch,funnel", quick=25, thorough=300, rounds=4))],
+    "C06": [nodebug(_SD)],
+    "C07": [nodebug(plan("batch,plan,funnel", quick=150, thorough=3000)), nodebug(trace("batch", quick=15, thorough=200))],
+    "C08": [nodebug(world(quick=250, thorough=600)), nodebug({"engine": "cellword", "args": {}, "quick": {"cases": 150}, "thorough": {"cases": 3000, "max-len": 80}})],
+    "C09": [nodebug(world(quick=300, thorough=600))],
+    "C10": [nodebug(plan("plan,deps,barriers,funnel", quick=200, thorough=4000))],
+    "C12": [nodebug(trace("tl,base", quick=20, thorough=300)), nodebug({"engine": "asyncd", "args": {}, "quick": {"cases": 60, "hist": 1}, "thorough": {"cases": 1000, "hist": 1}})],
+    "C13": [nodebug({"engine": "lifecycle", "args": {}, "quick": {"cases": 60}, "thorough": {"cases": 2000}}), nodebug({"engine": "asyncd", "args": {}, "quick": {"cases": 40, "hist": 1}, "thorough": {"cases": 600, "hist": 1}})],
+    "C14": [nodebug(trace("flat,base,batch,tl", quick=15, thorough=300, panics=True))],
+    "C15": [nodebug({"engine": "asyncd", "args": {}, "quick": {"cases": 150, "hist": 1}, "thorough": {"cases": 3000, "hist": 2}})],
+    "C17": [nodebug({"engine": "meta", "args": {}, "quick": {"cases": 800}, "thorough": {"cases": 8000}})],
+    "C18": [nodebug(plan("malformed,plan,funnel", quick=150, thorough=3000, **{"max-n": 40}))],
+    "C19": [nodebug(plan("plan,funnel", quick=150, thorough=3000))],
+    "C20": [nodebug(plan("malformed,plan,batch", quick=150, thorough=3000))],
+}
+for _k, _v in _NODEBUG.items():
+    PROPS[_k]["engines"] = PROPS[_k]["engines"] + _v
+
 
 TEXT = {
     "C01": "Proof: for every registration sequence (and, via Level, every dispatcher with batches nested to any depth) and every trace of its plan - every interleaving - two systems inside their windows at the same time have non-conflicting declarations; corollary C01_no_sibling_borrow_conflict (no sibling holds an incompatible guard when a system fetches). Tied to /repo by exact layout comparison (plan engine) and by feeding every recorded event log of real dispatches (pools 1-16, forced overlap) to the proved acceptor; implementation-side oracles give the failing input. PARTIAL for inputs of the open finding KF1 (thread-local systems inside a batch).",
